@@ -20,9 +20,9 @@ MANIFEST = dict(
          "every captured variable of an operator that is written after its declaration and reachable from two emission contexts - location, read/write, function, emission context, lexically computed "
          "protection (table_ok, table_race_free_partial: no data race among the recorded accesses of the locations that are not listed). The race-detector runs (harness kind `race`, ~30 concurrent "
          "scenarios, binary built with -race) do NOT prove anything: they validate the table (every report with a samber/ro frame must fall on rows of a location the table already rejects) and search "
-         "for a failing input; the Lean driver only echoes this kind. Known findings (each reproduced under -race): connectableObservableImpl.subject / .subscription outside s.mu, "
-         "ShareWithConfig.sourceSubscription read after Unlock, BufferWithCount.buffer and GroupBy.groups reset by the teardown, ObserveOn/SubscribeOn and ToChannel teardown closing the hand-off channel "
-         "under a sending callback. (MergeMapI's shared index and OnErrorResumeNextWith's rewritten slice were found as well, confirmed under -race, and have been repaired in the repository since.)",
+         "for a failing input; the Lean driver only echoes this kind. Known findings (each reproduced under -race): connectableObservableImpl.subject / .subscription outside s.mu; ObserveOn/SubscribeOn (detachOn) and ToChannel teardown closing the hand-off channel "
+         "under a sending callback. Found by this check, confirmed under -race and repaired in the repository since (no longer excused): Share's sourceSubscription read after Unlock, BufferWithCount.buffer and "
+         "GroupBy.groups reset by the teardown, MergeMapI's shared index, OnErrorResumeNextWith's rewritten slice.",
     technique="Lean 4 lockset theorem (invariant by induction over schedules) + kernel-decided per-pair predicate over the access table regenerated from source by a lexical lock-region / emission-context analysis + race-detector runs validating the table",
     ref='5/C13')
 
@@ -31,9 +31,9 @@ MANIFEST = dict(
 # Mirrors lean/RoModel/LocksetPreds.lean; used only to NAME failing pairs and to match race reports
 # to rows. It decides nothing: the verdict on the table is the Lean `decide`.
 
-KNOWN_RACY = ["connectableObservableImpl.subject", "connectableObservableImpl.subscription", "ShareWithConfig.sourceSubscription",
-              "BufferWithCount.buffer", "GroupByIWithContext.groups", "detachOn.ch", "ToChannel.ch"]
-# repaired in the repository meanwhile (commits 11bf135, fd0e106) and no longer excused: MergeMapIWithContext.i, OnErrorResumeNextWith.finally
+KNOWN_RACY = ["connectableObservableImpl.subject", "connectableObservableImpl.subscription", "detachOn.ch", "ToChannel.ch"]
+# repaired in the repository meanwhile and no longer excused (known_findings.jsonl, `fixed:` lines): MergeMapIWithContext.i (11bf135),
+# OnErrorResumeNextWith.finally (fd0e106), ShareWithConfig.sourceSubscription (a510ca9), BufferWithCount.buffer (40f71f8), GroupByIWithContext.groups (32b7a93)
 
 
 def locksets():
@@ -266,7 +266,7 @@ def check(ctx):
             items.append((tuple(csites), 'CHILD PROCESS DIED: ' + ctext))
         seen_unknown = set()
         # first pass: reports that fall on rows of a location the table already rejects
-        rest, here = [], set()
+        rest, here, here_rejected = [], set(), set()
         for sites, block in items:
             cands = locs_of_sites(tbl, sites)
             known = [c for c in cands if c in KNOWN_RACY and c in failing]
@@ -276,12 +276,18 @@ def check(ctx):
                     here.add(c)
             else:
                 rest.append((sites, block, cands))
+                here_rejected.update(c for c in cands if c in failing)
         for sites, block, cands in rest:
             # construction racing with use: an object (struct built by its constructor, or a value built
             # by the scenario) reached another goroutine through an unsynchronised reference. When this
             # child process also showed the race on a listed location, that location is the reference.
             if here and (not all(sites) or init_rows_at(tbl, sites)):
                 consequences.setdefault('+'.join(sorted(here)), []).append((d['scenario'], sites))
+                continue
+            # the same, when the unsynchronised reference is a location the table rejects and that is
+            # not listed: that location is reported (below and by the table violation); its consequences are not
+            if here_rejected and not any(c in failing for c in cands) and (not all(sites) or init_rows_at(tbl, sites)):
+                consequences.setdefault('+'.join(sorted(here_rejected)), []).append((d['scenario'], sites))
                 continue
             if not any(sites):
                 key = ('harness', d['scenario'])
